@@ -126,7 +126,7 @@ func mkElem(kind string, rng *rand.Rand) elem {
 		method, params = "J.Err", "[1]"
 		e.Expect = "optional-error"
 	case "unknown":
-		method = []string{"J.Nope", "Val", "j.val", "J.", "", "X.Val", "J.Val ", "J.Dangling", "J.Missing"}[rng.Intn(9)]
+		method = []string{"J.Nope", "Val", "j.val", "J.", "", "X.Val", "J.Val ", "J.Dangling", "J.Missing", "J.Größe", "服务.方法", "J.Val\t", "J.\x7f", "J." + strings.Repeat("v", 300)}[rng.Intn(14)]
 		e.Expect, e.Code, e.Runs = "error", -32601, 0
 		if method == "" {
 			e.Code = 0 // an empty method name is not a well-formed request: any error
